@@ -1,6 +1,110 @@
-(* C04 - NACK responder retransmits exactly what was sent.  Statements only. *)
-From IV Require Import Base.Word Model.RtpBuffer Spec.C04Spec Proofs.RtpBufferProofs.
+(* C04 - NACK responder retransmits exactly what was sent.
+   Statements only; proofs are in Proofs/{RtpBuffer,PacketFactory,ResendLts}Proofs.v.
 
-Theorem C04_get_returns_requested_number : forall b seq p, rb_get b seq = Some p -> rp_seq p = seq.
-Proof. exact rb_get_seq. Qed.
-Print Assumptions C04_get_returns_requested_number.
+   Vocabulary (Spec/C04Spec.v): a send history assigns every send its UNWRAPPED
+   number (serial-number arithmetic relative to the highest number sent so
+   far); [in_window size a seq] is the unwrapped number a request for [seq]
+   denotes when it lies among the most recent [size] numbers up to the highest
+   one sent; [candidates size a seq] are the packets sent with that number;
+   [designated size a seq] is the one of them that is retransmitted (the latest
+   send of that number; a re-send of the current highest keeps the first).
+   The models follow the code AFTER the three fix: commits of C04. *)
+From IV Require Import Base.Word Model.RtpBuffer Model.PacketFactory Model.ResendLts Spec.C04Spec
+  Proofs.RtpBufferProofs Proofs.PacketFactoryProofs Proofs.ResendLtsProofs.
+
+(* ---- (a) the ring: Get returns exactly a packet sent with that number inside
+   the window, for every size 1..32768 and every history of Add/Clear ---- *)
+
+(* exact: Get = the designated packet of the history *)
+Theorem C04_get_exact : forall S ops seq,
+  valid_size S = true -> Forall hop_ok ops -> 0 <= seq < 65536 ->
+  rb_get (fold_left rb_step ops (mkRB S [] 0 false)) seq =
+  designated S (fold_left ah_step_x ops ah_empty) seq.
+Proof. exact get_exact. Qed.
+Print Assumptions C04_get_exact.
+
+(* what is returned was sent (it is an Add of the history), carries the
+   requested number and is one of the packets sent with the requested unwrapped
+   number inside the window *)
+Theorem C04_get_returns_a_packet_sent_in_window : forall S ops seq p,
+  valid_size S = true -> Forall hop_ok ops -> 0 <= seq < 65536 ->
+  rb_get (fold_left rb_step ops (mkRB S [] 0 false)) seq = Some p ->
+  In (HAdd p) ops /\ rp_seq p = seq /\ In p (candidates S (fold_left ah_step ops ah_empty) seq).
+Proof. exact get_sent. Qed.
+Print Assumptions C04_get_returns_a_packet_sent_in_window.
+
+(* nothing else: Get returns nothing iff no packet was sent with that number
+   inside the window (never sent, outside the window, or cleared) *)
+Theorem C04_nothing_else : forall S ops seq,
+  valid_size S = true -> Forall hop_ok ops -> 0 <= seq < 65536 ->
+  (rb_get (fold_left rb_step ops (mkRB S [] 0 false)) seq = None <->
+   candidates S (fold_left ah_step ops ah_empty) seq = []).
+Proof. exact get_none_iff. Qed.
+Print Assumptions C04_nothing_else.
+
+(* non-vacuity and the repaired finding F4: size 8, send 100,101,102 then the
+   late 93 - 101 is still retransmittable *)
+Example C04_get_example :
+  let mk s := mkRP s (mkH false 0 false 96 s 0 1 []) [s] in
+  rb_get (fold_left rb_step [HAdd (mk 100); HAdd (mk 101); HAdd (mk 102); HAdd (mk 93)] (mkRB 8 [] 0 false)) 101
+  = Some (mk 101).
+Proof. vm_compute. reflexivity. Qed.
+Print Assumptions C04_get_example.
+
+Theorem C04_sizes : forall S, valid_size S = true <-> exists i, 0 <= i <= 15 /\ S = 2 ^ i.
+Proof.
+  intros S. split.
+  - intros H. apply valid_size_In in H. simpl in H.
+    repeat (destruct H as [H|H]; [subst S|]); try contradiction;
+      [exists 0|exists 1|exists 2|exists 3|exists 4|exists 5|exists 6|exists 7|exists 8|exists 9|exists 10
+      |exists 11|exists 12|exists 13|exists 14|exists 15]; split; try lia; reflexivity.
+  - intros [i [Hi ->]].
+    assert (Hc : i = 0 \/ i = 1 \/ i = 2 \/ i = 3 \/ i = 4 \/ i = 5 \/ i = 6 \/ i = 7 \/ i = 8 \/ i = 9 \/
+                 i = 10 \/ i = 11 \/ i = 12 \/ i = 13 \/ i = 14 \/ i = 15) by lia.
+    repeat (destruct Hc as [->|Hc]; [reflexivity|]). subst. reflexivity.
+Qed.
+Print Assumptions C04_sizes.
+
+(* ---- (b) the packet factory: what is stored is the packet as sent or its
+   RFC 4588 form, and exactly the storable packets are accepted ---- *)
+Theorem C04_rtx_form : forall s h pay rtxssrc rtxpt p s',
+  new_packet s h pay rtxssrc rtxpt = (NPOk p, s') ->
+  rp_seq p = h_seq h /\ storable (is_rtx rtxssrc rtxpt) h pay = true /\
+  is_resend_of (is_rtx rtxssrc rtxpt) rtxssrc rtxpt h pay (rp_hdr p) (rp_pay p).
+Proof. exact new_packet_form. Qed.
+Print Assumptions C04_rtx_form.
+
+Theorem C04_rejects_only_unstorable : forall s h pay rtxssrc rtxpt c s',
+  new_packet s h pay rtxssrc rtxpt = (NPErr c, s') -> storable (is_rtx rtxssrc rtxpt) h pay = false.
+Proof. exact new_packet_rejects. Qed.
+Print Assumptions C04_rejects_only_unstorable.
+
+(* non-vacuity: old-style padding of 2 bytes removed behind the OSN prefix *)
+Example C04_rtx_example :
+  fst (new_packet 500 (mkH true 0 true 96 258 7 1000 []) [9; 8; 0; 2] 2000 97) =
+  NPOk (mkRP 258 (mkH false 0 true 97 500 7 2000 []) [1; 2; 9; 8]).
+Proof. vm_compute. reflexivity. Qed.
+Print Assumptions C04_rtx_example.
+
+(* ---- (d) schedules (PARTIAL: the atomic steps are the critical sections of
+   the code; that they are atomic is the mutex discipline, trusted).  For every
+   interleaving of any number of writers, NACK goroutines, Unbind/Close, with a
+   pool that hands released buffers to later NewPackets which overwrite them:
+   every resend hands the downstream writer exactly the bytes NewPacket stored
+   in that packet object. ---- *)
+Theorem C04_resend_content_any_schedule_partial : forall (C : Type) (o0 : obj C) (c0 : cell C) ls st,
+  run C (init C o0 c0) ls st ->
+  forall p seen, In (LEmit C p seen) ls -> exists c, In (LNew C p c) ls /\ seen = Some c.
+Proof. intros C o0 c0 ls st H. exact (proj2 (proj2 (resend_content_any_schedule C o0 c0 ls st H))). Qed.
+Print Assumptions C04_resend_content_any_schedule_partial.
+
+Theorem C04_new_label_unique_partial : forall (C : Type) (o0 : obj C) (c0 : cell C) ls st p c1 c2,
+  run C (init C o0 c0) ls st -> In (LNew C p c1) ls -> In (LNew C p c2) ls -> c1 = c2.
+Proof. exact new_label_unique. Qed.
+Print Assumptions C04_new_label_unique_partial.
+
+Theorem C04_pool_disjoint_from_live_partial : forall (C : Type) (o0 : obj C) (c0 : cell C) ls st p b,
+  run C (init C o0 c0) ls st -> (p < nobj C st)%nat -> o_count C (objs C st p) <> O ->
+  o_buf C (objs C st p) = Some b -> c_free C (heap C st b) = false.
+Proof. exact pool_disjoint_from_live. Qed.
+Print Assumptions C04_pool_disjoint_from_live_partial.
